@@ -150,7 +150,7 @@ def key_pool(rng):
 
 
 HOSTS = ["alpha", "beta.example.com", "10.0.0.1", "[gamma]:2222", "::1", "delta", "Alpha", "alph", "alpha.example.com",
-         "192.168.7.9", "[10.0.0.1]:22", "epsilon-1"]
+         "192.168.7.9", "[10.0.0.1]:22", "epsilon-1", "Beta.Example.COM", "MiXed-Host", "DELTA"]
 UNLISTED = ["zeta", "alphaa", "lpha", "beta", "10.0.0.10", "gamma", "*", "alpha,delta", ""]
 
 
@@ -161,7 +161,7 @@ def gen_file(rng, pool, hosts=None):
     hashed_literals = []
     multi = 0
     conflicts = 0
-    info = dict(ghosts=[], indented_comment=0, commented_entry=0, comments=0, blanks=0, crlf=False, trailing=0,
+    info = dict(ghosts=[], indented_comment=0, commented_entry=0, comments=0, blanks=0, crlf=False, trailing=0, hashed_mixed_case=0,
                 trailing_1=0, trailing_2=0, trailing_3plus=0)
     for _ in range(rng.randint(1, 12)):
         r = rng.random()
@@ -183,6 +183,8 @@ def gen_file(rng, pool, hosts=None):
             if rng.random() < 0.15:
                 lit = ref_hash(h, bytes(rng.getrandbits(8) for _ in range(20)))
                 hashed_literals.append(lit)
+                if h != h.lower():
+                    info["hashed_mixed_case"] += 1
                 names.append(lit)
             else:
                 names.append(h)
@@ -304,6 +306,20 @@ def compare_with_reference(ctx, hk, entries, probes, pool, rng, where, wit):
         got, _ = real_lookup(hk, host)
         want = ref_lookup(entries, host)
         ctx.count("lookups_compared")
+        if host.startswith("|1|") and want is not None:
+            ctx.count("hashed_literal_lookups_compared")
+        if want is not None:
+            # dict-style access must agree with lookup(): hk[name] works for every listed name, hashed literals included
+            ctx.count("getitem_accesses_compared")
+            try:
+                sub = hk[host]
+                if set(sub.keys()) != set(want):
+                    ctx.violation("%s: hk[name] reports other key types than the entries listing the name" % where,
+                                  "host %r" % host, dict(wit, host=host))
+            except KeyError:
+                ctx.violation("%s: hk[name] raises KeyError for a listed name (%s)"
+                              % (where, "hashed literal" if host.startswith("|1|") else "plain name"),
+                              "host %r" % host, dict(wit, host=host))
         if want is not None:
             ctx.count("lookups_compared_listed_host")
         if got != want:
@@ -450,13 +466,15 @@ def file_scenario(ctx, rng, pool, d, i):
     f1, f2, f3 = (os.path.join(d, n) for n in ("kh", "kh.saved", "kh.snap"))
     write(f1, text)
     ghosts = list(dict.fromkeys(info["ghosts"]))
-    probes = list(dict.fromkeys(hosts + rng.sample(HOSTS, 3) + rng.sample(UNLISTED, 3) + hashed[:2] + ghosts[:3]))
+    other_case = [h.lower() for h in hosts if h != h.lower()] + [h.upper() for h in hosts[:1]]
+    probes = list(dict.fromkeys(hosts + rng.sample(HOSTS, 3) + rng.sample(UNLISTED, 3) + hashed[:3] + ghosts[:3] + other_case))
     wit = dict(file=text)
     for flag, name in (("indented_comment", "files_with_indented_comments"), ("commented_entry", "files_with_commented_out_entries"),
                        ("crlf", "files_with_crlf_line_ends"), ("blanks", "files_with_blank_lines")):
         if info[flag]:
             ctx.count(name)
     ctx.count("comment_lines_generated", info["comments"])
+    ctx.count("hashed_mixed_case_names_generated", info["hashed_mixed_case"])
     ctx.count("entry_lines_with_trailing_fields", info["trailing"])
     ctx.count("entry_lines_with_1_trailing_field", info["trailing_1"])
     ctx.count("entry_lines_with_2_trailing_fields", info["trailing_2"])
@@ -682,6 +700,9 @@ def run(ctx):
     ctx.require("files_with_hashed_names", 150)
     ctx.require("files_with_conflicting_keys", 100)
     ctx.require("histories_run", 120)
+    ctx.require("hashed_literal_lookups_compared", 400)
+    ctx.require("getitem_accesses_compared", 3000)
+    ctx.require("hashed_mixed_case_names_generated", 60)
     ctx.require("deletes_judged", 500)
     ctx.require("deletes_where_first_match_is_entry_0", 120)
     ctx.require("deletes_where_first_match_is_a_middle_entry", 120)
